@@ -19,10 +19,14 @@ P = {
  "C09": (False, "edge-cut inside the verifier closure; role/option agreement tables; who-may on InsecureSkipVerify and ReceptorVerifyFunc call sites", "", ""),
  "C10": (False, "single relay site (who-may), positive-budget edge cut, decrement value identity, expiry notice constants", "", ""),
  "C11": (False, "edge-cut on the single connection-table insertion; removal on every exit after insertion; lockset atomicity of scan+insert", "", ""),
- "C12": (False, "error-flow in rule construction, case-set agreement, anchored-regex format, firewall loop dominates every delivery/forward/notify", "", ""),
+ "C12": (True, "error-flow in rule construction, case-set agreement tables, anchored-regex format, SSA edge cuts: rule evaluation dominates every delivery/forward/notify, Drop/Reject arms cannot reach delivery",
+         "Decides, for every rule set and packet, the structural clauses of C12: no error of the rule builders can be dropped (a bad pattern cannot silently widen a rule); parser, literal matcher, regex matcher and BuildComps share one field vocabulary wired to the right packet fields; unknown keys/actions/non-string values only reach failing returns; /regex/ is compiled between ^( and )$; in handleMessageData the merged rule result dominates dispatch, listener delivery, forwarding and notices, the loop stops at the first non-Continue result, the only constant default is Accept, the Drop arm reaches nothing and the Reject arm reaches only the 'blocked by firewall' notice. It does not decide regexp semantics or notice delivery over the mesh.",
+         "Trusts go/types, go/ssa, regexp and fmt.Sprintf semantics as stated in the evidence file."),
  "C13": (False, "lockset atomicity of ID generation; release reaches delete; constant-state monotonicity per writer over CFG paths", "", ""),
  "C14": (False, "who-may-open the status file; lock-before-open and deferred unlock; read-modify-write in one section; guarded-by on the in-memory copy", "", ""),
- "C15": (False, "edge-cut: every effectful work command is dominated by a successful processSignature; verifier success only after parse/valid/audience", "", ""),
+ "C15": (True, "SSA edge cuts + dominance: every effectful work command is dominated by the success edge of processSignature with value-identical work type/sign flag/unit; decision and verifier success conditions; who-may-call tables",
+         "Decides, for every command and token, that allocate/cancel/release/results effects in the work ControlFunc are unreachable unless processSignature (about the same work type, sign flag and unit) returned nil in the same arm; that processSignature returns nil only for a non-verifying type with an empty token, a Unix-socket peer, or a successful VerifySignature; that VerifySignature returns nil only after non-empty token, configured key, key load, ParseWithClaims with claims validation enabled into RegisteredClaims, token.Valid and VerifyAudience(this node, required); that the key func yields a typed *rsa.PublicKey; and that no other control command reaches the effect functions. It does not decide JWT/RSA cryptography or clocks.",
+         "Trusts go/types, go/ssa, and the stated golang-jwt/v4 contracts (default parser validates exp/nbf; method/key type agreement)."),
  "C16": (False, "construction and routing filters of the unreachable notice (edge cuts + field-to-field value identity)", "", ""),
  "C17": (False, "channel-close ownership, nil-safe repeated close, owned-release pairing, lostcancel, goroutine termination arms, close ordering", "", ""),
  "C18": (False, "acceptance guard edge-cut, relay discipline, withdrawal on close, tombstone retention (one-sided comparison)", "", ""),
